@@ -1,3 +1,7 @@
 import XcpProofs.Bytes
 import XcpProofs.Blocks
 import XcpProofs.Merge
+import XcpProofs.Legal
+import XcpProofs.Extents
+import XcpProofs.Loops
+import XcpProofs.BackupLemmas
